@@ -10,39 +10,59 @@ def fail_build(out):
     return 2
 
 
-# properties whose exploration is repeated with the library built the way a release user builds it (no debug
-# assertions, no overflow checks): functional behaviour must not depend on the profile
-RELPROD_QUICK = {"C02", "C05", "C08"}
-RELPROD_THOROUGH = {"C01", "C02", "C03", "C04", "C05", "C06", "C07", "C08", "C10", "C11", "C14", "C15"}
+# The exploration of a property is repeated with the library built in other ways; functional behaviour must not
+# depend on the build:
+#   relprod = guard ON,  the profile a release user gets (no debug assertions, no overflow checks); hooks available
+#   user    = guard OFF, same profile: exactly what a downstream `cargo build --release` compiles; the steps that need
+#             the sequence-number hooks are skipped there (suites::HOOKS), so it is used for the E1 properties
+VARIANTS = {"relprod": (True, "relprod"), "user": (False, "relprod")}
+RELPROD_QUICK = {"C02", "C04", "C05", "C08", "C16"}
+RELPROD_THOROUGH = {"C01", "C02", "C03", "C04", "C05", "C06", "C07", "C08", "C10", "C11", "C14", "C15", "C16"}
+USER_BOTH = {"C01", "C02", "C03", "C06", "C07", "C08", "C09", "C10", "C11", "C12", "C13", "C14", "C15"}
 
 
-def harness(drv, prop, tier, args, guard_on=True, extra_args=None, profile="release"):
-    if profile == "release" and guard_on and "--replay" not in args and "--emit-part" not in (extra_args or []) and \
-            prop in (RELPROD_THOROUGH if tier == "thorough" else RELPROD_QUICK):
-        part = os.path.join(drv.ROOT, "target", f"{prop}_relprod_part.json")
-        if os.path.exists(part):
-            os.remove(part)
-        ea = [a for a in (extra_args or []) if a not in ("--transcript",)]
-        if "--transcript" in (extra_args or []):
-            i = extra_args.index("--transcript")
-            ea = extra_args[:i] + extra_args[i + 2:]
-        rc = harness(drv, prop, tier, args, guard_on=True, extra_args=ea + ["--emit-part", part], profile="relprod")
-        if rc == 2 or not os.path.exists(part):
-            print("MACHINERY-ERROR the release-profile run did not produce its part", file=sys.stderr)
-            return 2
-        extra_args = (extra_args or []) + ["--merge-part", part]
+def variants_for(prop, tier):
+    v = []
+    if prop in (RELPROD_THOROUGH if tier == "thorough" else RELPROD_QUICK):
+        v.append("relprod")
+    if prop in USER_BOTH:
+        v.append("user")
+    return v
+
+
+def harness(drv, prop, tier, args, guard_on=True, extra_args=None, profile="release", variant=None):
+    if variant is None and guard_on and "--replay" not in args and "--emit-part" not in (extra_args or []):
+        for var in variants_for(prop, tier):
+            part = os.path.join(drv.ROOT, "target", f"{prop}_{var}_part.json")
+            if os.path.exists(part):
+                os.remove(part)
+            ea = list(extra_args or [])
+            if "--transcript" in ea:
+                i = ea.index("--transcript")
+                ea = ea[:i] + ea[i + 2:]
+            if "--merge-part" in ea:
+                i = ea.index("--merge-part")
+                ea = ea[:i] + ea[i + 2:]
+            g, prof = VARIANTS[var]
+            rc = harness(drv, prop, tier, args, guard_on=g, extra_args=ea + ["--emit-part", part], profile=prof, variant=var)
+            if rc == 2 or not os.path.exists(part):
+                print(f"MACHINERY-ERROR the {var} run did not produce its part", file=sys.stderr)
+                return 2
+            extra_args = (extra_args or []) + ["--merge-part", part]
     if "--replay" in args:
         try:
-            if "@relprod" in json.load(open(args[args.index("--replay") + 1])).get("part", ""):
-                profile = "relprod"
+            pn = json.load(open(args[args.index("--replay") + 1])).get("part", "")
+            for var, (g, prof) in VARIANTS.items():
+                if "@" + var in pn:
+                    guard_on, profile, variant = g, prof, var
         except Exception:
             pass
     tdir, out = drv.build(guard_on=guard_on, extra=["--bin", "hpke-mc"], profile=profile)
     if tdir is None:
         return fail_build(out)
     exe = os.path.join(tdir, profile, "hpke-mc")
-    if profile != "release":
-        os.environ["HPKE_MC_VARIANT"] = profile
+    if variant:
+        os.environ["HPKE_MC_VARIANT"] = variant
     else:
         os.environ.pop("HPKE_MC_VARIANT", None)
     cmd = [exe, prop, "--root", drv.ROOT] + args + (extra_args or [])
